@@ -29,7 +29,7 @@ class Unit:
     def __init__(self, name, props, tu, roots, target, contracts, harness=None, replace=(), stops=(), unwind=None,
                  defines=(), quick_defines=(), thorough_defines=(), tiers=("quick", "thorough"), replay=None,
                  kind="proof", bound_note="", timeout=None, extra_cbmc=(), loop_contracts=False, trusted=(),
-                 note="", mutants=(), solver=None, object_bits=None, no_canary=False, known=(), spec_target=False, unwindset=(), quick_unwind=None, mem_gb=None, quick_unwindset=()):
+                 note="", mutants=(), solver=None, object_bits=None, no_canary=False, known=(), spec_target=False, unwindset=(), quick_unwind=None, mem_gb=None, quick_unwindset=(), thorough_object_bits=None, thorough_timeout=None):
         self.name = name
         self.props = list(props)
         self.tu = tu
@@ -55,6 +55,8 @@ class Unit:
         self.mutants = list(mutants)    # [(label, regex, replacement)] applied to the lowered C text; must be refuted
         self.solver = solver
         self.object_bits = object_bits
+        self.thorough_object_bits = thorough_object_bits
+        self.thorough_timeout = thorough_timeout
         self.no_canary = no_canary
         self.known = list(known)
         self.unwindset = list(unwindset)    # e.g. ['verif_memset.0:66']
@@ -200,13 +202,18 @@ class Runner:
         uws = list(unit.unwindset) + (list(unit.quick_unwindset) if self.tier == "quick" else [])
         if uws:
             flags += ["--unwindset", ",".join(uws)]
-        if unit.object_bits:
-            flags += ["--object-bits", str(unit.object_bits)]
+        ob = unit.object_bits
+        if self.tier == "thorough" and unit.thorough_object_bits:
+            ob = unit.thorough_object_bits
+        if ob:
+            flags += ["--object-bits", str(ob)]
         if unit.solver:
             flags += unit.solver if isinstance(unit.solver, list) else [unit.solver]
         else:
             flags += ["--sat-solver", "cadical"]   # measured: 17 s vs 345 s (MiniSat) on encode_offset64
         timeout = unit.timeout or (900 if self.tier == "quick" else 3600)
+        if self.tier == "thorough" and unit.thorough_timeout:
+            timeout = unit.thorough_timeout
         mem = unit.mem_gb or (12 if self.tier == "quick" else 24)
         cbmc_cmd = ["cbmc", os.path.join(d, "b.gb")] + flags + ["--json-ui"]
         rc, out, err, solve_s = run(cbmc_cmd, timeout=timeout, mem_gb=mem)
